@@ -5,6 +5,7 @@ specification (`RefLog`) alone demands; lines starting with `#` are
 model-only information for the script generator.
 -/
 import RaftLogModel.Model.Text
+import RaftLogModel.Model.Names
 open RaftLog
 
 structure DState where
@@ -324,6 +325,16 @@ def step (d : DState) (line : String) : IO DState := do
         | .error k => out s!"judge err {showErr k}"
       | none => out "bad-op"
     | _, _, _, _, _ => out "bad-op"
+    return d
+  | ["name", n] =>
+    match n.toNat? with
+    | some n => out s!"name {String.ofList (chunkFileName n)}"
+    | none => out "bad-op"
+    return d
+  | ["pname", nm] =>
+    match parseChunkFileName nm.toList with
+    | some v => out s!"pname ok {v}"
+    | none => out "pname err"
     return d
   | "enc" :: rec =>
     match parseRecord rec with
